@@ -194,7 +194,7 @@ Lemma el_write_S : forall f (cid : Z) (sent : Z) (w : world),
           | _ =>
             if et then
               if sent' <? l_chunk (st w2) then el_write f cid sent' w2
-              else trigger false (TWrite0 cid) w2
+              else trigger false (TWrite0 cid) (ghost "rearm-write" cid [] w2)
             else (RNil, w2)
           end
       end
@@ -415,25 +415,12 @@ Definition open_loop (cid : Z) :=
              end
            end.
 
-Lemma el_open_unfold : forall (fuel : nat) (cid : Z) (w : world),
-  el_open fuel cid w =
-  (let c := wc w cid in
-  let w1 := wsetc w cid (c_set_opened c true) in
-  let w2 := emit (obs "cb" [ASym "open"; AInt cid]) w1 in
-  let '(act, reply, w3) := handler fuel cid w2 in
-  if negb (c_opened (wc w3 cid)) then      (* closed inside OnOpen *)
-    match act with
-    | AShutdown => (RShutdown, w3)
-    | _ => (RNil, w3)                      (* handleAction: close of a closed connection is a no-op *)
-    end
-  else
-  (* c.open(out) *)
-  let '(ok, w4) :=
+Definition open_reply (cid : Z) (reply : option (list Z)) (w3 : world) : bool * world :=
     match reply with
     | None => (true, w3)
     | Some data =>
       let c3 := wc w3 cid in
-      let w3 := if c_udp c3 then w3 else ghost "openreply" cid [] (ghost "sub" cid data w3) in
+      let w3 := if c_udp c3 then w3 else ghost "sub" cid data w3 in
       if c_udp c3 && negb (c_remote c3) then
         match sys "sendto" [AInt (c_fd c3); ABytes data; bool_arg false] w3 with
         | (KErr _, w') => (false, w')
@@ -443,48 +430,10 @@ Lemma el_open_unfold : forall (fuel : nat) (cid : Z) (w : world),
         (true, wsetc w3 cid (c_set_out c3 (c_out c3 ++ data)))
       else
         (open_loop cid) (S (List.length (inp w3))) data w3
-    end in
-  let w4 := ghost "openreply-end" cid [] w4 in
-  if negb ok then (RErr, w4)
-  else
-    let c4 := wc w4 cid in
-    let '(r5, w5) :=
-      match c_out c4 with
-      | _ :: _ => if l_et (st w4) then (RNil, w4) else epctl "mod" (c_fd c4) true false w4
-      | [] => (RNil, w4)
-      end in
-    match r5 with
-    | RNil =>
-      match act with
-      | ANone => (RNil, w5)
-      | AClose => el_close fuel cid true w5
-      | AShutdown => (RShutdown, w5)
-      end
-    | r => (r, w5)
-    end).
-Proof. reflexivity. Qed.
-
-(* el_open in three parts: announce, write the OnOpen reply, arm and act *)
-Definition open_reply (cid : Z) (reply : option (list Z)) (w3 : world) : bool * world :=
-    match reply with
-    | None => (true, w3)
-    | Some data =>
-      let c3 := wc w3 cid in
-      let w3 := if c_udp c3 then w3 else ghost "openreply" cid [] (ghost "sub" cid data w3) in
-      if c_udp c3 && negb (c_remote c3) then
-        match sys "sendto" [AInt (c_fd c3); ABytes data; bool_arg false] w3 with
-        | (KErr _, w') => (false, w')
-        | (_, w') => (true, w')
-        end
-      else if (match c_out c3 with [] => false | _ => true end) then
-        (true, wsetc w3 cid (c_set_out c3 (c_out c3 ++ data)))
-      else
-        open_loop cid (S (List.length (inp w3))) data w3
     end.
 
 Definition open_tail (fuel : nat) (cid : Z) (act : action) (ok : bool) (w4 : world) : res * world :=
-  let w4 := ghost "openreply-end" cid [] w4 in
-  if negb ok then (RErr, w4)
+  if negb ok then el_close fuel cid false w4      (* the reply could not be written: close, report through OnClose *)
   else
     let c4 := wc w4 cid in
     let '(r5, w5) :=
@@ -499,7 +448,7 @@ Definition open_tail (fuel : nat) (cid : Z) (act : action) (ok : bool) (w4 : wor
       | AClose => el_close fuel cid true w5
       | AShutdown => (RShutdown, w5)
       end
-    | r => (r, w5)
+    | _ => el_close fuel cid false w5             (* write interest could not be registered: close *)
     end.
 
 Lemma el_open_parts : forall (fuel : nat) (cid : Z) (w : world),
